@@ -438,7 +438,10 @@ ANGLE = ["<string>", "<stdin>", "<doctest user_mod[3]>", "<generated pipeline>"]
 
 
 # a package NEXT TO uberjob whose directory name begins with "uberjob" (uberjob_contrib/...): user code like any other
-SIBLING = ["@sibling:_contrib/helpers.py", "@sibling:-extras/build.py"]      # resolved against the library's directory when used
+SIBLING = ["@sibling:_contrib/helpers.py", "@sibling:-extras/build.py",      # resolved against the library's directory when used
+           # user code as a notebook kernel compiles it (cells live in files named after the kernel), and other paths that merely LOOK
+           # like an interpreter's own
+           "/tmp/ipykernel_4242/1234567890.py", "/home/user/ipykernel_projects/build.py"]
 
 
 def resolve_file(f):
@@ -733,7 +736,7 @@ def _cases(ctx):
         for depth, inner in ([(1, "genexpr"), (3, "lambda"), (4, "genexpr"), (6, "listcomp"), (2, "dictcomp")] if quick else
                              [(d, i) for d in (1, 2, 3, 4, 5, 7) for i in ("genexpr", "lambda", "listcomp", "setcomp", "dictcomp")]):
             cases.append(gen_case(rng2, name, depth, rng2.random() < 0.8, inner=inner))
-        for depth in ((1, 3) if quick else (1, 2, 3, 5)):
+        for depth in ((1, 3, 2) if quick else (1, 2, 3, 5, 4, 2)):
             cases.append(gen_case(rng2, name, depth, True, sibling=True))
         cases.append(gen_case(rng2, name, 1, True, inner="recursive"))          # 4 identical frames + h1: exactly the depth limit + 1
         if not quick:
